@@ -920,7 +920,22 @@ func (c *EvalCtx) callSpecFn(fn *SpecFn, args []Val) (Val, error) {
 			as = append(as, args[i].One())
 		}
 		if fn.Body == nil {
-			x.vc.DeclareRaw(name, "(declare-fun "+name+" ("+strings.Join(ps, " ")+") "+rs.SMT()+")")
+			if _, seen := x.vc.prelude[name]; !seen {
+				x.vc.DeclareRaw(name, "(declare-fun "+name+" ("+strings.Join(ps, " ")+") "+rs.SMT()+")")
+				// assumed axioms that mention this uninterpreted function come along with it
+				for _, ax := range x.w.specs.Axioms {
+					if strings.Contains(ax.Src, fn.Name+"(") {
+						ac := &EvalCtx{x: x, names: map[string]Val{}, st: c.st}
+						x.vc.inQuant++
+						v, err := ac.eval(ax.E, sortBool)
+						x.vc.inQuant--
+						if err == nil && len(v.L) == 1 {
+							x.vc.AddAxiom("axiom."+ax.Name, "(assert "+v.One()+")", name)
+							x.trusted["axiom "+ax.Name] = true
+						}
+					}
+				}
+			}
 		} else {
 			if _, ok := x.vc.prelude[name]; !ok && !x.recBusy[name] {
 				if x.recBusy == nil {
